@@ -872,6 +872,41 @@ pub open spec fn found_at(m: Seq<(Seq<u8>, Entry)>, comps: Seq<Seq<u8>>, from: i
     }
 }
 
+/// statement of C12 for one entry: size verification succeeds exactly when a size is recorded and the file's length equals it
+pub open spec fn size_outcome(e: Entry, path: Seq<u8>, r: Result<u64, DistinfoError>) -> bool {
+    match e.size {
+        Some(size) => match w_len(path) {
+            Some(n) => if n == size as int { r == Ok::<u64, DistinfoError>(size) }
+                       else { r is Err && r->Err_0 is Size && pbb(&r->Err_0->Size_0) == pbb(&e.filename) && r->Err_0->Size_1 == size && r->Err_0->Size_2 == n },
+            None => r is Err && r->Err_0 is Io,
+        },
+        None => r is Err && r->Err_0 is MissingSize && pbb(&r->Err_0->MissingSize_0) == path,
+    }
+}
+/// ... and checksum verification for an algorithm succeeds exactly when the first recorded hash of that algorithm equals the digest of the file
+/// (by the entry's kind), Checksum(name, algorithm, expected, actual) on a mismatch, MissingChecksum when none is recorded
+pub open spec fn sum_outcome(e: Entry, path: Seq<u8>, digest: Digest, r: Result<Digest, DistinfoError>) -> bool {
+    match first_sum(sums_v(e.checksums@), digest, 0) {
+        None => r is Err && r->Err_0 is MissingChecksum && pbb(&r->Err_0->MissingChecksum_0) == path && r->Err_0->MissingChecksum_1 == digest,
+        Some(k) => match w_digest(digest, e.filetype, path) {
+            None => r is Err && (r->Err_0 is Io || r->Err_0 is Digest),
+            Some(actual) => if actual == e.checksums@[k].hash@ { r == Ok::<Digest, DistinfoError>(digest) }
+                else { r is Err && r->Err_0 is Checksum && pbb(&r->Err_0->Checksum_0) == pbb(&e.filename) && r->Err_0->Checksum_1 == digest
+                       && r->Err_0->Checksum_2@ == e.checksums@[k].hash@ && r->Err_0->Checksum_3@ == actual },
+        },
+    }
+}
+/// Distinfo::insert: an entry whose (path-equal) name is already present replaces that entry in place and false is returned; otherwise it is appended and true is returned
+pub open spec fn ins_spec(m0: Seq<(Seq<u8>, Entry)>, entry: Entry, m1: Seq<(Seq<u8>, Entry)>, r: bool) -> bool {
+    let i = find_key(m0, pbb(&entry.filename));
+    if i >= 0 { !r && m1 == m0.update(i, (m0[i].0, entry)) } else { r && m1 == m0.push((pbb(&entry.filename), entry)) }
+}
+/// the entry a lookup path denotes: the one recorded under the SHORTEST trailing sub-path, in the map chosen by the path's classification
+pub open spec fn lookup(d: &Distinfo, path: Seq<u8>) -> Option<Entry> {
+    let m = if class_of(path) == EntryType::Patchfile { d.pmap() } else { d.dmap() };
+    match found_at(m, pcomps(path), 1) { Some((k, i)) => Some(m[i].1), None => None }
+}
+
 impl Entry {
 //@ extract src/distinfo.rs : impl Entry fn verify_size
 //@ rewrite D9.generic_path_param D6.file_open_q D6.file_metadata_len_q
@@ -879,14 +914,7 @@ impl Entry {
         &self,
         path: P,
     ) -> (r: Result<u64, DistinfoError>)
-        ensures (match self.size {
-            Some(size) => match w_len(pab(path)) {
-                Some(n) => if n == size as int { r == Ok::<u64, DistinfoError>(size) }
-                           else { r is Err && r->Err_0 is Size && pbb(&r->Err_0->Size_0) == pbb(&self.filename) && r->Err_0->Size_1 == size && r->Err_0->Size_2 == n },
-                None => r is Err && r->Err_0 is Io,
-            },
-            None => r is Err && r->Err_0 is MissingSize && pbb(&r->Err_0->MissingSize_0) == pab(path),
-        })
+        ensures size_outcome(*self, pab(path), r)
     {
         if let Some(size) = self.size {
             let f = File::open(path)?;
@@ -911,15 +939,7 @@ impl Entry {
         path: P,
         digest: Digest,
     ) -> (r: Result<Digest, DistinfoError>)
-        ensures (match first_sum(sums_v(self.checksums@), digest, 0) {
-            None => r is Err && r->Err_0 is MissingChecksum && pbb(&r->Err_0->MissingChecksum_0) == pab(path) && r->Err_0->MissingChecksum_1 == digest,
-            Some(k) => match w_digest(digest, self.filetype, pab(path)) {
-                None => r is Err && (r->Err_0 is Io || r->Err_0 is Digest),
-                Some(actual) => if actual == self.checksums@[k].hash@ { r == Ok::<Digest, DistinfoError>(digest) }
-                    else { r is Err && r->Err_0 is Checksum && pbb(&r->Err_0->Checksum_0) == pbb(&self.filename) && r->Err_0->Checksum_1 == digest
-                           && r->Err_0->Checksum_2@ == self.checksums@[k].hash@ && r->Err_0->Checksum_3@ == actual },
-            },
-        })
+        ensures sum_outcome(*self, pab(path), digest, r)
     {
         let mut __i_c: usize = 0;
         while __i_c < self.checksums.len()
@@ -953,6 +973,63 @@ impl Entry {
             path.as_ref().to_path_buf(),
             digest,
         ))
+    }
+//@ end
+//@ extract src/distinfo.rs : impl Entry fn verify_checksum
+//@ rewrite D9.generic_path_param
+    pub fn verify_checksum<P: AsRef<Path>>(
+        &self,
+        path: P,
+        digest: Digest,
+    ) -> (r: Result<Digest, DistinfoError>)
+        ensures sum_outcome(*self, pab(path), digest, r)
+    {
+        self.verify_checksum_internal(path, digest)
+    }
+//@ end
+//@ extract src/distinfo.rs : impl Entry fn verify_checksums
+//@ rewrite D9.generic_path_param
+    pub fn verify_checksums<P: AsRef<Path>>(
+        &self,
+        path: P,
+    ) -> (r: Vec<Result<Digest, DistinfoError>>)
+        ensures r@.len() == self.checksums@.len(), forall|j: int| 0 <= j < r@.len() ==> sum_outcome(*self, pab(path), self.checksums@[j].digest, #[trigger] r@[j])
+    {
+        let mut results = vec![];
+        for c in it: &self.checksums
+            invariant
+                it.snapshot@.remaining().len() == self.checksums@.len(),
+                forall|i: int| 0 <= i < self.checksums@.len() ==> *(#[trigger] it.snapshot@.remaining()[i]) == self.checksums@[i],
+                results@.len() == it.index@,
+                forall|j: int| 0 <= j < results@.len() ==> sum_outcome(*self, pab(path), self.checksums@[j].digest, #[trigger] results@[j]),
+        {
+            results
+                .push(self.verify_checksum_internal(path.as_ref(), c.digest));
+        }
+        results
+    }
+//@ end
+//@ extract src/distinfo.rs : impl Entry fn new
+//@ rewrite D9.generic_path_params2
+    pub fn new<P1, P2>(
+        filename: P1,
+        filepath: P2,
+        checksums: Vec<Checksum>,
+        size: Option<u64>,
+    ) -> (r: Entry)
+    where
+        P1: AsRef<Path>,
+        P2: AsRef<Path>,
+        ensures pbb(&r.filename) == pab(filename), pbb(&r.filepath) == pab(filepath), r.checksums == checksums, r.size == size, r.filetype == class_of(pab(filename))
+    {
+        let filetype = EntryType::from(filename.as_ref());
+        Entry {
+            filename: filename.as_ref().to_path_buf(),
+            filepath: filepath.as_ref().to_path_buf(),
+            checksums,
+            size,
+            filetype,
+        }
     }
 //@ end
 }
@@ -1026,6 +1103,129 @@ impl Distinfo {
             }
         }
         Err(DistinfoError::NotFound)
+    }
+//@ end
+//@ extract src/distinfo.rs : impl Distinfo fn verify_size
+//@ rewrite D9.generic_path_param
+    pub fn verify_size<P: AsRef<Path>>(
+        &self,
+        path: P,
+    ) -> (r: Result<u64, DistinfoError>)
+        requires self.wf()
+        ensures (match lookup(self, pab(path)) { Some(e) => size_outcome(e, pab(path), r), None => r is Err && r->Err_0 is NotFound })
+    {
+        let entry = self.find_entry(path.as_ref())?;
+        entry.verify_size(path)
+    }
+//@ end
+//@ extract src/distinfo.rs : impl Distinfo fn verify_checksum
+//@ rewrite D9.generic_path_param
+    pub fn verify_checksum<P: AsRef<Path>>(
+        &self,
+        path: P,
+        digest: Digest,
+    ) -> (r: Result<Digest, DistinfoError>)
+        requires self.wf()
+        ensures (match lookup(self, pab(path)) { Some(e) => sum_outcome(e, pab(path), digest, r), None => r is Err && r->Err_0 is NotFound })
+    {
+        let entry = self.find_entry(path.as_ref())?;
+        entry.verify_checksum_internal(path, digest)
+    }
+//@ end
+//@ extract src/distinfo.rs : impl Distinfo fn verify_checksums
+//@ rewrite D9.generic_path_param
+    pub fn verify_checksums<P: AsRef<Path>>(
+        &self,
+        path: P,
+    ) -> (r: Vec<Result<Digest, DistinfoError>>)
+        requires self.wf()
+        ensures (match lookup(self, pab(path)) {
+            Some(e) => r@.len() == e.checksums@.len() && forall|j: int| 0 <= j < r@.len() ==> sum_outcome(e, pab(path), e.checksums@[j].digest, #[trigger] r@[j]),
+            None => r@.len() == 1 && r@[0] is Err && r@[0]->Err_0 is NotFound,
+        })
+    {
+        let entry = match self.find_entry(path.as_ref()) {
+            Ok(entry) => entry,
+            Err(e) => return vec![Err(e)],
+        };
+        let mut results = vec![];
+        for c in it: &entry.checksums
+            invariant
+                lookup(self, pab(path)) == Some(*entry),
+                it.snapshot@.remaining().len() == entry.checksums@.len(),
+                forall|i: int| 0 <= i < entry.checksums@.len() ==> *(#[trigger] it.snapshot@.remaining()[i]) == entry.checksums@[i],
+                results@.len() == it.index@,
+                forall|j: int| 0 <= j < results@.len() ==> sum_outcome(*entry, pab(path), entry.checksums@[j].digest, #[trigger] results@[j]),
+        {
+            results
+                .push(entry.verify_checksum_internal(path.as_ref(), c.digest));
+        }
+        results
+    }
+//@ end
+//@ extract src/distinfo.rs : impl Distinfo fn calculate_size
+//@ rewrite D9.generic_path_param D6.file_open_q D6.file_metadata_len_q_file
+    pub fn calculate_size<P: AsRef<Path>>(
+        path: P,
+    ) -> (r: Result<u64, DistinfoError>)
+        ensures (match w_len(pab(path)) { Some(n) => r == Ok::<u64, DistinfoError>(n as u64) && n == (n as u64) as int, None => r is Err && r->Err_0 is Io })
+    {
+        let file = File::open(path)?;
+        Ok(file.metadata()?.len())
+    }
+//@ end
+//@ extract src/distinfo.rs : impl Distinfo fn calculate_checksum
+//@ rewrite D9.generic_path_param D6.file_open_q D6.hash_file_q_digest D6.hash_patch_q_digest
+    pub fn calculate_checksum<P: AsRef<Path>>(
+        path: P,
+        digest: Digest,
+    ) -> (r: Result<String, DistinfoError>)
+        ensures (match w_digest(digest, class_of(pab(path)), pab(path)) { Some(h) => r is Ok && r->Ok_0@ == h, None => r is Err && (r->Err_0 is Io || r->Err_0 is Digest) })
+    {
+        let filetype = EntryType::from(path.as_ref());
+        let mut f = File::open(path)?;
+        match filetype {
+            EntryType::Distfile => Ok(digest.hash_file(&mut f)?),
+            EntryType::Patchfile => Ok(digest.hash_patch(&mut f)?),
+        }
+    }
+//@ end
+//@ extract src/distinfo.rs : impl Distinfo fn insert
+    pub fn insert(&mut self, entry: Entry) -> (r: bool)
+        ensures
+            entry.filetype == EntryType::Distfile ==> final(self).pmap() == old(self).pmap() && ins_spec(old(self).dmap(), entry, final(self).dmap(), r),
+            entry.filetype == EntryType::Patchfile ==> final(self).dmap() == old(self).dmap() && ins_spec(old(self).pmap(), entry, final(self).pmap(), r),
+            final(self).dv().rcsid == old(self).dv().rcsid,
+    {
+        let map = match entry.filetype {
+            EntryType::Distfile => &mut self.distfiles,
+            EntryType::Patchfile => &mut self.patchfiles,
+        };
+        map.insert(entry.filename.clone(), entry).is_none()
+    }
+//@ end
+//@ extract src/distinfo.rs : impl Distinfo fn set_rcsid
+    pub fn set_rcsid(&mut self, rcsid: &OsString)
+        ensures final(self).dv() == (DistinfoV { rcsid: Some(osbs(rcsid)), ..old(self).dv() }), final(self).dmap() == old(self).dmap(), final(self).pmap() == old(self).pmap(),
+            old(self).wf() ==> final(self).wf()
+    {
+        self.rcsid = Some(rcsid.clone());
+    }
+//@ end
+//@ extract src/distinfo.rs : impl Distinfo fn distfiles
+//@ rewrite D6.imap_values_collect
+    pub fn distfiles(&self) -> (r: Vec<&Entry>)
+        ensures r@.len() == self.dmap().len(), forall|i: int| 0 <= i < r@.len() ==> *(#[trigger] r@[i]) == self.dmap()[i].1
+    {
+        self.distfiles.values().collect()
+    }
+//@ end
+//@ extract src/distinfo.rs : impl Distinfo fn patchfiles
+//@ rewrite D6.imap_values_collect
+    pub fn patchfiles(&self) -> (r: Vec<&Entry>)
+        ensures r@.len() == self.pmap().len(), forall|i: int| 0 <= i < r@.len() ==> *(#[trigger] r@[i]) == self.pmap()[i].1
+    {
+        self.patchfiles.values().collect()
     }
 //@ end
 }
